@@ -43,29 +43,25 @@ class HybridRunner(ScenarioRunner):
         def get_stats_for(data, agent_name, agent_states, agent_properties, agent_property_types):
             output = {}
             for t, row in data.items():
-                for agent, states in row.items():
-                    if agent == agent_name:
-                        if len(agent_states) > 0:
-                            if len(agent_properties) > 0:
-                                if len(agent_property_types) > 0:
+                # a type without agents, or a requested state without agents, at time t is reported as zero (not as a missing row or column)
+                states = row.get(agent_name, {})
+                if len(agent_states) > 0:
+                    if len(agent_properties) > 0:
+                        if len(agent_property_types) > 0:
 
-                                    counts = {}
-                                    columns = list(states.keys())
-                                    for column in columns:
-                                        if column in agent_states:
-                                            for agent_property in agent_properties:
-                                                for property_type in agent_property_types:
-                                                    counts[column + "_" + agent_property + "_" + property_type] = states[column][agent_property][property_type]
-                                    output[t] = counts
-                            else:
-                                counts = {}
-                                columns = list(states.keys())
-                                for column in columns:
-                                    if column in agent_states:
-                                        counts[column] = states[column]["count"]
-                                output[t] = counts
-                        else:
-                            output[t] = 0 #TODO: should do something about this
+                            counts = {}
+                            for column in agent_states:
+                                for agent_property in agent_properties:
+                                    for property_type in agent_property_types:
+                                        counts[column + "_" + agent_property + "_" + property_type] = states[column][agent_property][property_type] if column in states else 0
+                            output[t] = counts
+                    else:
+                        counts = {}
+                        for column in agent_states:
+                            counts[column] = states[column]["count"] if column in states else 0
+                        output[t] = counts
+                else:
+                    output[t] = 0 #TODO: should do something about this
             return output
 
         res = get_stats_for(data, agent_name, agent_states, agent_properties, agent_property_types)
